@@ -13,7 +13,7 @@ import h3
 
 from . import seed, tier
 from .enumrun import pmap, rotate
-from .nets import build, dijkstra, link_positions
+from .nets import build, dijkstra, link_positions, reference_graph
 from .report import Check, Finding, log
 from nrel.hive.model.entity_position import EntityPosition
 
@@ -153,6 +153,7 @@ def c13_networks(quick: bool):
         (("grid", (10, 100, 40, 10, 100, 40, 10), (1, 1.5, 1, 1, 1.5, 1, 1), (1, 2)), "all_positions"),  # two one-way streets
         (("ring",), "all_positions"),
         (("deadend",), "all_positions"),
+        (("parallel",), "all_positions"),
     ]
     nets.append((("denver",), "links"))
     return nets
@@ -200,7 +201,7 @@ def c13() -> int:
 def _c14_shard(shard) -> Dict[str, Any]:
     spec, part, nparts = shard
     rn = build(spec)
-    g = rn.graph
+    g = reference_graph(spec)  # the oracle's own copy: never handed to (or read from) the library
     nodes = sorted(g.nodes)
     out = {"pairs": 0, "nontrivial": 0, "findings": [], "nfindings": 0, "worst": 0.0, "samples": []}
     in_link = {}
@@ -251,7 +252,7 @@ def c14_networks(quick: bool):
         nets.append(("grid", tuple(bits), (3, 1, 1, 3, 1, 3, 1), ()))
     for bits in itertools.product((10, 100), repeat=7):
         nets.append(("grid", tuple(bits), (1,) * 7, ()))
-    nets += [("ring",), ("deadend",), ("grid", (10, 100, 40, 10, 100, 40, 10), (1, 1.5, 1, 1, 1.5, 1, 1), (1, 2))]
+    nets += [("ring",), ("deadend",), ("parallel",), ("grid", (10, 100, 40, 10, 100, 40, 10), (1, 1.5, 1, 1, 1.5, 1, 1), (1, 2))]
     return nets
 
 
@@ -304,8 +305,7 @@ def replay(body) -> int:
             print(f"{item[:-1]}: {item[-1]}")
         hit = bool(bad)
     else:
-        g = rn.graph
-        r = _c14_shard((spec, 0, 1)) if spec[0] != "denver" else None
+        g = reference_graph(spec)
         u, v = rp["from_node"], rp["to_node"]
         dist = dijkstra(g, u)
         in_link = sorted(f"{a}-{b}" for a, b, _ in g.edges if b == u)[0]
